@@ -469,8 +469,46 @@ class Program:
                 st.extend(preds[x])
             f.doomed = {bid for bid in live if bid not in can}
 
+    ALLOCATORS = {"malloc", "calloc", "realloc", "ILLutil_allocrus", "ILLutil_reallocrus", "strdup"}
+
+    def fault_edges(self, f):
+        """allocation-failure edges (DESIGN 2.3): the NULL edge of a test of a location that was assigned from an allocator
+        in the same block.  They are outside the path universe of every rule."""
+        fe = f.raw.get("_fault_edges")
+        if fe is not None:
+            return fe
+        from .cond import atoms
+        fe = set()
+        for bid in f.live:
+            b = f.blocks[bid]
+            if len(b["s"]) != 2 or "c" not in b or b.get("t") == "SwitchStmt":
+                continue
+            for l, op, r in atoms(b["c"], True):
+                if const_of(r) != 0 or op not in ("==", "!="):
+                    continue
+                target = apath(l)
+                if target[0] == "other":
+                    continue
+                # last assignment to that location in this block (or in a unique predecessor)
+                blocks = [b]
+                preds = [x for x in f.live if bid in [y for y in f.blocks[x]["s"] if y is not None]]
+                if len(preds) == 1:
+                    blocks.append(f.blocks[preds[0]])
+                found = False
+                for bb in blocks:
+                    for e in reversed(bb["e"]):
+                        if e[0] == "A" and apath(e[1][2]) == target:
+                            if any(n[0] == "c" and norm_callee(n[1]) in self.ALLOCATORS for n in walk(e[1][3])):
+                                fe.add((bid, 0 if op == "==" else 1))
+                            found = True
+                            break
+                    if found:
+                        break
+        f.raw["_fault_edges"] = fe
+        return fe
+
     def live_succs(self, f, b):
-        de = f.raw.get("_dead_edges", ())
+        de = set(f.raw.get("_dead_edges", ())) | self.fault_edges(f)
         out = []
         for i, s in enumerate(b["s"]):
             if s is None or (b["id"], i) in de:
